@@ -34,6 +34,7 @@ type sDesc struct {
 type sField struct {
 	Key    string
 	Squash bool
+	Omit   bool // omitempty
 	GoName string
 	Index  int
 	T      *sDesc
@@ -109,8 +110,11 @@ func sDescribe(t reflect.Type, stack []reflect.Type) *sDesc {
 			if key == "-" {
 				continue
 			}
-			squash, remain := false, false
+			squash, remain, omit := false, false, false
 			for _, p := range parts[1:] {
+				if p == "omitempty" {
+					omit = true
+				}
 				if p == "squash" {
 					squash = true
 				}
@@ -125,7 +129,7 @@ func sDescribe(t reflect.Type, stack []reflect.Type) *sDesc {
 			if key == "" {
 				key = f.Name
 			}
-			d.Fields = append(d.Fields, sField{Key: key, Squash: squash, GoName: f.Name, Index: i, T: sDescribe(f.Type, st)})
+			d.Fields = append(d.Fields, sField{Key: key, Squash: squash, Omit: omit, GoName: f.Name, Index: i, T: sDescribe(f.Type, st)})
 		}
 		return d
 	}
